@@ -7,12 +7,14 @@ import (
 	"context"
 	"encoding/json"
 	"fmt"
+	"os"
+	"time"
 	"strings"
 
 	log "github.com/go-spring/log"
 )
 
-var c16ops = []string{"RA", "RB", "RE", "RL1", "RL2", "RL3", "D", "LT", "WH", "RT", "GH"}
+var c16ops = []string{"RA", "RB", "RE", "RL1", "RL2", "RL3", "RL4", "D", "LT", "WH", "RT", "GH"}
 
 func c16cfgA() map[string]string {
 	return map[string]string{
@@ -65,7 +67,7 @@ func (rn *c16run) exec(ops []string, fresh bool) (string, string) {
 		var st string
 		where := fmt.Sprintf("step %d (%s) in state %s", step, op, live)
 		switch op {
-		case "RA", "RB", "RE", "RL1", "RL2", "RL3":
+		case "RA", "RB", "RE", "RL1", "RL2", "RL3", "RL4":
 			var cfg map[string]string
 			switch op {
 			case "RA":
@@ -84,6 +86,9 @@ func (rn *c16run) exec(ops []string, fresh bool) (string, string) {
 			case "RL3":
 				cfg = c16cfgB()
 				cfg["fastCaller"] = "notabool"
+			case "RL4": // an appender cannot be started (its directory does not exist): fails before any logger is started
+				cfg = c16cfgB()
+				cfg["appender.bad.type"], cfg["appender.bad.fileDir"], cfg["appender.bad.fileName"] = "File", "/nonexistent-c16/dir", "x.log"
 			}
 			pv, st = catch(func() { err = log.Refresh(cfg) })
 			if pv != nil {
@@ -118,8 +123,17 @@ func (rn *c16run) exec(ops []string, fresh bool) (string, string) {
 				}
 			}
 		case "D":
-			if pv, st = catch(log.Destroy); pv != nil {
-				return fmt.Sprintf("%s: Destroy panicked: %v\n%s", where, pv, trunc(st, 800)), "destroy-panic"
+			done, pvd, _ := callWithWatchdog(20*time.Second, log.Destroy)
+			if !done {
+				if k, gr := stuckInLibrary("watchdogMarker"); k != "" {
+					rn.w.Violate("C16:destroy-hangs", fmt.Sprintf("sequence %v, %s: Destroy does not return (%s inside the library)\n%s", ops, where, k, trunc(gr, 1200)), map[string]any{"ops": ops, "fresh": fresh})
+					rn.w.flush()
+					os.Exit(0)
+				}
+				return where + ": Destroy did not return within the watchdog (not parked in the library)", "inconclusive"
+			}
+			if pvd != nil {
+				return fmt.Sprintf("%s: Destroy panicked: %v", where, pvd), "destroy-panic"
 			}
 			live = "none"
 		case "LT":
@@ -201,8 +215,15 @@ func (rn *c16run) exec(ops []string, fresh bool) (string, string) {
 		}
 	}
 	// close the history: Destroy flushes async loggers, then every expectation is compared
-	if pv, st := catch(log.Destroy); pv != nil {
-		return fmt.Sprintf("final Destroy panicked: %v\n%s", pv, trunc(st, 800)), "destroy-panic"
+	if done, pvd, _ := callWithWatchdog(20*time.Second, log.Destroy); !done {
+		if k, gr := stuckInLibrary("watchdogMarker"); k != "" {
+			rn.w.Violate("C16:destroy-hangs", fmt.Sprintf("sequence %v followed by Destroy: Destroy does not return (%s inside the library)\n%s", ops, k, trunc(gr, 1200)), map[string]any{"ops": ops, "fresh": fresh})
+			rn.w.flush()
+			os.Exit(0)
+		}
+		return "final Destroy did not return within the watchdog", "inconclusive"
+	} else if pvd != nil {
+		return fmt.Sprintf("final Destroy panicked: %v", pvd), "destroy-panic"
 	}
 	got := map[string][]recItem{}
 	for _, it := range rec.take() {
@@ -266,7 +287,9 @@ func c16Worker(w *W) {
 		rn.h1, rn.h2 = log.GetLogger("h1"), log.GetLogger("h2")
 		log.RegisterTag("c16unused_a")
 		log.RegisterTag("c16unused_b")
-		if d, cls := rn.exec(ops, true); d != "" {
+		if d, cls := rn.exec(ops, true); cls == "inconclusive" {
+			w.Inconclusive(d)
+		} else if d != "" {
 			report(ops, d, cls+":fresh-process")
 		} else {
 			distinct(ops)
@@ -305,7 +328,9 @@ func c16Worker(w *W) {
 				if idx%w.Spec.NShards == w.Spec.Shard {
 					ops := append([]string{}, prefix...)
 					w.Journal("enum %v", ops)
-					if d, cls := rn.exec(ops, false); d != "" {
+					if d, cls := rn.exec(ops, false); cls == "inconclusive" {
+						w.Inconclusive(d)
+					} else if d != "" {
 						report(ops, d, cls)
 					} else {
 						distinct(ops)
@@ -351,7 +376,7 @@ func c16Worker(w *W) {
 func init() {
 	register(&Prop{
 		ID: "C16", Level: "exploration", MinDistinct: 1000, Worker: c16Worker,
-		Rule: "operation sequences over the alphabet {Refresh valid A (sync, level INFO, enableCaller on), Refresh valid B (async, enableCaller off), Refresh invalid-early (rejected before anything is touched), Refresh invalid-late x3 (unknown logger type; property failure after a sync / an async configuration was started and bound), Destroy, log via tag (level cycling), write via one of two named handles, register tag, obtain handles}: " +
+		Rule: "operation sequences over the alphabet {Refresh valid A (sync, level INFO, enableCaller on), Refresh valid B (async, enableCaller off), Refresh invalid-early (rejected before anything is touched), Refresh invalid-late x4 (unknown logger type; property failure after a sync / an async configuration was started and bound; an appender that cannot be started), Destroy, log via tag (level cycling), write via one of two named handles, register tag, obtain handles}: " +
 			"ALL sequences of length 1..5 (quick) / 1..6 (thorough) chained in-process from the state 'nothing live', sequences of length 5-8 sampled, and every sequence of length <= 2 (quick) / <= 3 (thorough) executed as the very first thing a fresh process does. " +
 			"Model: live in {none, A, B, limbo}; outcomes per statement (second Refresh rejected and live routing + enableCaller undisturbed, Destroy idempotent, registration refused while live/possible otherwise, output on the console when nothing is live, A/B routing incl. async after flush); in limbo only totality is judged. " +
 			"distinct_nontrivial = number of distinct sequences whose every step matched the model (enumerated sequences are distinct by construction; sampled ones are de-duplicated).",
